@@ -223,14 +223,19 @@ impl<'a> Audit<'a> {
                 }
                 // the dependency's own record, when present, must be consistent as well
                 let mut dep_status = self.top_status.get(name).copied();
-                for k in &n.children {
-                    if k.kind == "RuleCheck" {
-                        if let Some(r) = self.file.rules.iter().find(|r| r.name == *name) {
-                            let s = self.rule(k, r);
-                            dep_status = dep_status.or(s);
+                // definitions of the name are evaluated in file order until one is not SKIP: the k-th recorded
+                // evaluation belongs to the k-th definition
+                let defs: Vec<&Rule> = self.file.rules.iter().filter(|r| r.name == *name && r.params.is_none()).collect();
+                let mut seen: Option<St> = None;
+                for (pos, k) in n.children.iter().filter(|k| k.kind == "RuleCheck").enumerate() {
+                    if let Some(r) = defs.get(pos) {
+                        let s = self.rule(k, r);
+                        if seen.map_or(true, |x| x == St::Skip) {
+                            seen = s.or(seen);
                         }
                     }
                 }
+                dep_status = dep_status.or(seen);
                 if let Some(ds) = dep_status {
                     let want = if (ds == St::Pass) != *not { St::Pass } else { St::Fail };
                     if n.status != Some(want) {
@@ -431,7 +436,12 @@ pub fn audit_state(file: &File, text: &str, dj: &str, acc: &mut Acc, class: &str
             return None;
         }
     };
-    let root = match parse_node(&v) {
+    audit_record_value(file, text, dj, &v, acc, class)
+}
+
+/// audits one evaluation record (as JSON) against the AST; returns (file status, rule statuses)
+pub fn audit_record_value(file: &File, text: &str, dj: &str, v: &Value, acc: &mut Acc, class: &str) -> Option<(St, Vec<(String, St)>)> {
+    let root = match parse_node(v) {
         Ok(n) => n,
         Err(e) => {
             acc.violate("record-not-a-tree", format!("{} rules `{}`", e, text.trim()), json!({"kind":"lib","rules":text,"data":dj,"expected":"well-nested record","observed":e}));
@@ -662,6 +672,86 @@ pub fn run(tier: &str) -> i32 {
     }
     rep.states += fl;
     rep.transitions += fl;
+
+    // ---- records printed by one `validate -p` run over two data files: the record of every data file is audited the same way
+    //      and must give the rule statuses of that file evaluated alone (a later file must not see an earlier file's statuses)
+    {
+        use crate::cli::{cli_inproc, put, sv};
+        let mut progs: Vec<File> = crate::c04::extra_pool();
+        progs.extend(crate::p2::same_name_family(false).into_iter().step_by(if thorough { 3 } else { 23 }));
+        let dsel: Vec<String> = crate::universe::docs_quick().iter().step_by(if thorough { 2 } else { 5 }).map(|d| d.json()).collect();
+        let mut pairs: Vec<(usize, usize, usize)> = vec![];
+        for pi in 0..progs.len() {
+            for a in 0..dsel.len() {
+                for b in 0..dsel.len() {
+                    if a != b && (thorough || (a + 2 * b + pi) % 3 == 0) {
+                        pairs.push((pi, a, b));
+                    }
+                }
+            }
+        }
+        let texts: Vec<String> = progs.iter().map(print_file).collect();
+        let rr = crate::par::run(pairs.len(), rep.seed as u64, crate::par::deadline_secs(if thorough { 1200 } else { 25 }), Acc::new, |k, acc| {
+            let (pi, a, b) = pairs[k];
+            let rp = put("c02m/r.guard", &texts[pi]);
+            let d1 = put("c02m/0_first.json", &dsel[a]);
+            let d2 = put("c02m/1_second.json", &dsel[b]);
+            let o = cli_inproc(&sv(&["validate", "-r", &rp, "-d", &d1, "-d", &d2, "-S", "none", "-p"]), "");
+            acc.traces += 1;
+            if o.panic.is_some() || o.code.is_err() {
+                *acc.outcomes.entry("two-file-error".into()).or_insert(0) += 1;
+                return;
+            }
+            let recs = crate::report::parse_record_stream(&o.out);
+            if recs.len() != 2 {
+                acc.violate("two-file-records", format!("{} records printed for two data files; rules `{}`", recs.len(), texts[pi].trim()), json!({"kind":"cli","argv":["validate","-r","r.guard","-d","0_first.json","-d","1_second.json","-S","none","-p"],"files":{"rules":texts[pi],"data":[dsel[a],dsel[b]]},"expected":"two records","observed":recs.len()}));
+                return;
+            }
+            // the exit code is the failure code exactly when some record's root is FAIL
+            let roots: Vec<Option<St>> = recs.iter().map(|r| parse_node(r).ok().and_then(|n| n.status)).collect();
+            let want_exit = if roots.iter().any(|s| *s == Some(St::Fail)) { 19 } else { 0 };
+            if o.status() != want_exit {
+                acc.violate("root-status-vs-exit-code", format!("record roots {:?} but exit {}; rules `{}` data {} / {}", roots, o.status(), texts[pi].trim(), dsel[a], dsel[b]), json!({"kind":"cli","argv":["validate","-r","r.guard","-d","0_first.json","-d","1_second.json","-S","none","-p"],"files":{"rules":texts[pi],"data":[dsel[a],dsel[b]]},"expected":format!("exit {}", want_exit),"observed":format!("exit {}", o.status())}));
+            }
+            // the same through --payload with two rules entries (this program and the next one of the pool) and one document
+            {
+                let pj = (pi + 1) % progs.len();
+                let stdin = json!({"rules": [texts[pi], texts[pj]], "data": [dsel[a]]}).to_string();
+                let op = cli_inproc(&sv(&["validate", "--payload", "-S", "none", "-p"]), &stdin);
+                acc.traces += 1;
+                if op.panic.is_none() && op.code.is_ok() {
+                    let precs = crate::report::parse_record_stream(&op.out);
+                    let proots: Vec<Option<St>> = precs.iter().map(|r| parse_node(r).ok().and_then(|n| n.status)).collect();
+                    let pw = if proots.iter().any(|s| *s == Some(St::Fail)) { 19 } else { 0 };
+                    if precs.len() != 2 || op.status() != pw {
+                        acc.violate("root-status-vs-exit-code:payload", format!("payload with two rules entries: record roots {:?} but exit {}; rules `{}` / `{}` data {}", proots, op.status(), texts[pi].trim(), texts[pj].trim(), dsel[a]), json!({"kind":"cli","argv":["validate","--payload","-S","none","-p"],"stdin":stdin,"expected":format!("two records, exit {}", pw),"observed":format!("{} records, exit {}", precs.len(), op.status())}));
+                    }
+                }
+            }
+            for (rec, dj) in recs.iter().zip([&dsel[a], &dsel[b]]) {
+                let got = audit_record_value(&progs[pi], &texts[pi], dj, rec, acc, "two-data-files");
+                // the same file alone
+                let alone = match lib_raw(&texts[pi], dj, true) {
+                    Ok(Ok(sx)) => serde_json::from_str::<Value>(&sx).ok().and_then(|v| parse_node(&v).ok()).map(|root| root.children.iter().filter_map(|c| Some((strip_file(c.name.as_ref()?), c.status?))).collect::<Vec<_>>()),
+                    _ => None,
+                };
+                if let (Some((_, g)), Some(al)) = (got, alone) {
+                    let strip = |v: Vec<(String, St)>| -> Vec<(String, St)> { v.into_iter().map(|(n, s)| (n.rsplit('/').next().unwrap_or(&n).to_string(), s)).collect() };
+                    if strip(g.clone()) != strip(al.clone()) {
+                        acc.violate("two-file-history", format!("in a run over two data files the record for {} gives {:?} but {:?} alone; rules `{}`", dj, g, al, texts[pi].trim()), json!({"kind":"cli","argv":["validate","-r","r.guard","-d","0_first.json","-d","1_second.json","-S","none","-p"],"files":{"rules":texts[pi],"data":[dsel[a],dsel[b]]},"expected":format!("{:?}", al),"observed":format!("{:?}", g)}));
+                    }
+                }
+            }
+        }, Acc::merge);
+        rep.states += rr.done as u64 * 2;
+        rep.transitions += rr.done as u64 * 2;
+        if rr.capped {
+            rep.caps_hit.push(format!("wall-clock cap: {} of {} two-data-file runs", rr.done, pairs.len()));
+        }
+        rep.extra.insert("two_data_file_runs".into(), json!(rr.done));
+        acc = Acc::merge(acc, rr.acc);
+        crate::cli::cleanup_workdirs();
+    }
 
     // ---- (b) record audit over composite programs (P2 BFS) and the extended pool
     let g = crate::p2::Gen::standard(thorough);
